@@ -172,7 +172,7 @@ def judge_stack(ctx, st, which):
             pre = [aa, b, cc]
         cls = c['class']
         icls = 'normal'
-        if c.get('fragmented'):
+        if c.get('fragmented') or len(c.get('hello_hex') or '') // 2 > 16384:     # more than one record can carry: the TLS stack itself splits it
             icls = 'hello_spans_records'
         elif which == 'ja3' and sni_class(a):
             icls = sni_class(a)
